@@ -10,7 +10,7 @@ use std::time::Duration;
 
 pub static PROP: Prop = Prop {
     id: "C01",
-    rule: "cases: (b) token soup: 0-60 fragments from 14 character/token classes (operator characters and spellings, delimiters, digit runs with . e E + -, balanced and unbalanced quotes, ; , whitespace, names, keywords, 2/3/4-byte scalars, other first characters, odd whitespace), glued without separator 3/4 of the time, plus corrupted valid programs, plus the operator x edge-palette programs of C04 (binary, compound, prefix/postfix and min/max/sum/mul forms), all in the dev AND the release build (paired shards); each input goes through parse_expression, execute (empty context) and, for every Ok(ast), expr(), describe() and drop, under catch_unwind; (c) depth classes: for each recursive construct (paren, bracket, brace-map, call, prefix -, prefix not, conditional then-nest and else-nest, left infix chain, right assignment chain, identifier run, statements, a whitespace run at one token boundary, unclosed openers, prefix over parenthesised infix, postfix over parens, list-in-map-in-call mix, `not OP` chain) and each depth of a ladder (1..48 dense, 64, 100, 300, 1000, 3000, 10000; 10^5 and 10^6 for the iteratively handled constructs [thorough: 2000, 5000, 30000, 100000 for all]) one child process per (construct, depth, build profile dev/release) runs parse -> expr -> describe -> exec -> drop on the main thread (8 MiB stack) under a 30 s watchdog. Context functions that use the context they are evaluated in (every bare-name / call position of C14, two actions) run through C14's scenario runner. Any panic, any abort (signal) and any reproducible watchdog expiry is a failure; depth <= 1000 must never abort. Non-trivial: the input contains a non-ASCII scalar, or an unterminated/mismatched construct, or nesting/chain depth >= 8; distinct by input hash (soup) / (construct, depth, profile) (ladder).",
+    rule: "cases: (b) token soup: 0-60 fragments from 14 character/token classes (operator characters and spellings, delimiters, digit runs with . e E + -, balanced and unbalanced quotes, ; , whitespace, names, keywords, 2/3/4-byte scalars, other first characters, odd whitespace), glued without separator 3/4 of the time, plus corrupted valid programs, plus the operator x edge-palette programs of C04 (binary, compound, prefix/postfix and min/max/sum/mul forms), all in the dev AND the release build (paired shards); one case in 48 draws 2-6 user operators (infix, prefix, postfix; symbolic and word spellings, some registered in several positions, `+` and `in` overridden; precedences 0, 1, 2, 20, 21, 110, 200, 10^9, 2^30, i32::MAX, -1, -2^30, i32::MIN; both associativities), registers them in a fresh child process and runs eight inputs there: chains of the registered operators followed by operator-like tokens of every kind, well-formed and damaged programs over the extended table, soup over the extended table; each input goes through parse_expression, execute (empty context) and, for every Ok(ast), expr(), describe() and drop, under catch_unwind; (c) depth classes: for each recursive construct (paren, bracket, brace-map, call, prefix -, prefix not, conditional then-nest and else-nest, left infix chain, right assignment chain, identifier run, statements, a whitespace run at one token boundary, unclosed openers, prefix over parenthesised infix, postfix over parens, list-in-map-in-call mix, `not OP` chain) and each depth of a ladder (1..48 dense, 64, 100, 300, 1000, 3000, 10000; 10^5 and 10^6 for the iteratively handled constructs [thorough: 2000, 5000, 30000, 100000 for all]) one child process per (construct, depth, build profile dev/release) runs parse -> expr -> describe -> exec -> drop on the main thread (8 MiB stack) under a 30 s watchdog. Context functions that use the context they are evaluated in (every bare-name / call position of C14, two actions) run through C14's scenario runner. Any panic, any abort (signal) and any reproducible watchdog expiry is a failure; depth <= 1000 must never abort. Non-trivial: the input contains a non-ASCII scalar, or an unterminated/mismatched construct, or nesting/chain depth >= 8; distinct by input hash (soup) / (construct, depth, profile) (ladder).",
     assumptions: &[
         "termination is decided by a 30 s watchdog in a child process (normal run time is milliseconds); an expiry must reproduce twice to count, otherwise the run is inconclusive (exit 2)",
         "stack exhaustion is judged on the default 8 MiB main-thread stack in both build profiles",
@@ -116,8 +116,169 @@ fn check_text(text: &str, st: &mut Stats) -> CaseResult {
     }
 }
 
-fn case(src: &mut Src, st: &mut Stats, _env: &Env) -> CaseResult {
+/// user operators of the registered-operator scenario: (kind, spelling)
+const REG_POOL: [(&str, &str); 14] = [
+    ("infix", "otherwise"), ("infix", "~>"), ("infix", "---"), ("infix", "%%"), ("infix", "+"), ("infix", "in"), ("infix", "vh_o"), ("infix", "@@"),
+    ("prefix", "neg"), ("prefix", "+++"), ("prefix", "%%"),
+    ("postfix", "!!"), ("postfix", "---"), ("postfix", "is_set"),
+];
+/// register_infix_op accepts every i32 (C08 documents the positive ones up to 10^9; an operator
+/// with a negative precedence never binds, but registering and meeting one must not panic either)
+const REG_PRECS: [i64; 13] = [0, 1, 2, 20, 21, 110, 200, 1_000_000_000, 1 << 30, i32::MAX as i64, -1, -(1 << 30), i32::MIN as i64];
+
+/// child: {"ops":[{"kind","name","prec","right"}], "texts":[..]} -> per text the stage reached or the panic
+pub fn worker_registered() -> i32 {
+    use std::io::Read;
+    install_panic_hook();
+    let mut s = String::new();
+    std::io::stdin().read_to_string(&mut s).ok();
+    let doc: J = serde_json::from_str(&s).unwrap_or(json!({}));
+    for (i, op) in doc["ops"].as_array().cloned().unwrap_or_default().iter().enumerate() {
+        crate::props::register_op(op, i as i64);
+    }
+    let out: Vec<J> = doc["texts"]
+        .as_array()
+        .cloned()
+        .unwrap_or_default()
+        .iter()
+        .map(|t| match total_check(t.as_str().unwrap_or("")) {
+            Ok(stage) => json!({"stage": stage}),
+            Err((stage, p)) => json!({"panic": p, "stage": stage}),
+        })
+        .collect();
+    println!("{}", J::Array(out));
+    0
+}
+
+fn run_registered(ops: &[J], texts: &[String], env: &Env, st: &mut Stats) -> CaseResult {
+    run_registered_in(ops, texts, PROFILE, env, st)
+}
+
+fn run_registered_in(ops: &[J], texts: &[String], profile: &str, env: &Env, st: &mut Stats) -> CaseResult {
+    let scenario = json!({"ops": ops, "texts": texts, "profile": profile});
+    let exe = if profile == PROFILE { env.exe.clone() } else { std::path::PathBuf::from(format!("{}/out/target/{}/vh", VERIF, if profile == "dev" { "debug" } else { "release" })) };
+    let out = run_child(&exe, &["worker", "c01r"], &scenario.to_string(), Duration::from_secs(60));
+    st.add_extra("child_processes", 1);
+    let doc: J = match (&out.end, serde_json::from_str::<J>(&out.stdout)) {
+        (ChildEnd::Exit(0), Ok(d)) => d,
+        (end, _) => {
+            return Err(Failure::new(
+                format!("registered-ops:child:{:?}", end).replace(' ', ""),
+                format!("with the registered operators {} the process parsing {:?} ended with {:?}; stderr: {}", J::Array(ops.to_vec()), texts, end, out.stderr.lines().last().unwrap_or("")),
+                scenario,
+            ))
+        }
+    };
+    for (i, t) in texts.iter().enumerate() {
+        st.eval();
+        if let Some(p) = doc[i]["panic"].as_str() {
+            return Err(Failure::new(
+                format!("registered-ops:panic:{}", panic_file(p)),
+                format!("with the registered operators {} the input {:?} panicked in {}: {}", J::Array(ops.to_vec()), t, doc[i]["stage"].as_str().unwrap_or("?"), p),
+                json!({"ops": ops, "texts": [t], "profile": profile}),
+            ));
+        }
+        st.hist(&format!("registered-ops:{}", doc[i]["stage"].as_str().unwrap_or("?")));
+    }
+    Ok(())
+}
+
+/// inputs over user-registered operators (any non-negative precedence, both associativities,
+/// spellings registered in several positions, built-ins overridden), parsed in a fresh process
+fn case_registered(src: &mut Src, st: &mut Stats, env: &Env) -> CaseResult {
+    let mut tab = OpTable::builtin();
+    let nops = 2 + src.pick(5);
+    let mut ops: Vec<J> = vec![];
+    let mut infix: Vec<String> = vec![];
+    let mut shape = vec![];
+    for _ in 0..nops {
+        let (kind, name) = *src.choose(&REG_POOL);
+        let prec = *src.choose(&REG_PRECS);
+        let right = src.chance(1, 2);
+        ops.push(json!({"kind": kind, "name": name, "prec": prec, "right": right}));
+        match kind {
+            "infix" => {
+                tab.infix.insert(name.to_string(), (prec, right));
+                infix.push(name.to_string());
+                shape.push(format!("i{}{}", prec, if right { "R" } else { "L" }));
+            }
+            "prefix" => {
+                tab.prefix.insert(name.to_string());
+                shape.push("pre".into());
+            }
+            _ => {
+                tab.postfix.insert(name.to_string());
+                shape.push("post".into());
+            }
+        }
+    }
+    if infix.is_empty() {
+        let prec = *src.choose(&REG_PRECS);
+        let right = src.chance(1, 2);
+        ops.push(json!({"kind": "infix", "name": "otherwise", "prec": prec, "right": right}));
+        tab.infix.insert("otherwise".to_string(), (prec, right));
+        infix.push("otherwise".into());
+        shape.push(format!("i{}{}", prec, if right { "R" } else { "L" }));
+    }
+    let mut texts: Vec<String> = vec![];
+    // chains of the registered infix operators followed by an operator-like token of any kind
+    let tails: Vec<String> = tab.prefix.iter().chain(tab.postfix.iter()).cloned().chain(["?", ":", "not", ",", ";", "="].iter().map(|s| s.to_string())).collect();
+    for _ in 0..3 {
+        let n = 2 + src.pick(4);
+        let mut s = String::new();
+        for i in 0..n {
+            if i > 0 {
+                s.push_str(&format!(" {} ", src.choose(&infix)));
+            }
+            s.push_str(*src.choose(&["a", "1", "( b )", "f ( 2 )", "[ 3 ]", "'s'", "- c", "d ++"]));
+        }
+        let ntail = src.pick(3);
+        for _ in 0..ntail {
+            s.push_str(&format!(" {} ", src.choose(&tails)));
+            s.push_str(*src.choose(&["d", "2", "( e )", ""]));
+            if src.chance(1, 2) {
+                s.push_str(&format!(" {} g", src.choose(&infix)));
+            }
+        }
+        texts.push(s);
+    }
+    // well-formed programs over the extended table, half of them damaged
+    let mut cfg = crate::gen_syntax::SynCfg::new(&tab);
+    let n0 = cfg.infix.len();
+    for i in 0..n0 {
+        cfg.infix.push(infix[i % infix.len()].clone());
+    }
+    cfg.max_operands = 8;
+    for k in 0..3 {
+        let mut chars: Vec<char> = crate::gen_syntax::join(&crate::gen_syntax::gen_program(src, &cfg)).chars().collect();
+        if k > 0 && !chars.is_empty() {
+            let pos = src.pick(chars.len());
+            match src.pick(3) {
+                0 => {
+                    chars.remove(pos);
+                }
+                1 => chars.truncate(pos),
+                _ => chars[pos] = *src.choose(&['é', ' ', '(', ')', '+', '"', '0', 'a']),
+            }
+        }
+        texts.push(chars.into_iter().collect());
+    }
+    for _ in 0..2 {
+        texts.push(gen_soup(src, &tab, 30).text);
+    }
+    st.hist("registered-operators");
+    shape.sort();
+    st.nontrivial(&format!("registered:{}", shape.join(",")));
+    st.sample(|| json!({"registered_operators": ops, "inputs": texts}));
+    run_registered(&ops, &texts, env, st)
+}
+
+fn case(src: &mut Src, st: &mut Stats, env: &Env) -> CaseResult {
     st.eval();
+    // one case in 48 runs eight inputs in a fresh process with user-registered operators
+    if src.pick(48) == 47 {
+        return case_registered(src, st, env);
+    }
     let tab = OpTable::builtin();
     let mode = src.weighted(&[3, 1]);
     let text = if mode == 0 {
@@ -421,6 +582,10 @@ fn fixed(env: &Env, st: &mut Stats) -> CaseResult {
 
 fn replay(case: &J, st: &mut Stats, env: &Env) -> CaseResult {
     st.eval();
+    if let Some(ops) = case["ops"].as_array() {
+        let texts: Vec<String> = case["texts"].as_array().cloned().unwrap_or_default().iter().map(|t| t.as_str().unwrap_or("").to_string()).collect();
+        return run_registered_in(ops, &texts, case["profile"].as_str().unwrap_or(PROFILE), env, st);
+    }
     if let Some(c) = case["construct"].as_str() {
         let c = CONSTRUCTS.iter().find(|x| **x == c).copied().unwrap_or("paren");
         return run_depth(c, case["depth"].as_u64().unwrap_or(1) as usize, case["profile"].as_str().unwrap_or("release"), env, st);
